@@ -15,7 +15,7 @@ CFG = {
             "absent key), with lookups of resident keys, under hash families {fnv, id, const, mod3, class} and default/larger/tighter options, "
             "for all four tables; adversarial: fills across the growth threshold under a constant hash with lookups of absent colliding keys, "
             "delete/revive, threshold oscillation; initial capacities whose growth/shrink targets lie next to squares of primes (59, 131, 229, 241, thorough: 239, 263, ...) "
-            "filled to the limit of every size reached under one-class hash functions with absent-key Get/Delete after every Put; capacities the constructor must reject (121, 169, 289, 961, ...); clients: library-internal users of the quadratic table under the watchdog with a small oracle each — grammar.Productions under "
+            "filled to the limit of every size reached under one-class hash functions with absent-key Get/Delete after every Put; capacities the constructor must reject (121, 169, 289, 961, ...); clients: library-internal users of the quadratic table under the watchdog with a small oracle each, random and adversarial — key names are chosen through the public hash functions (HashNonTerminal, HashSymbol, HashState, HashTerminal) so that one whole quadratic probe cycle of the client's table (16 of 31 slots, 34 of 67 after one growth) is filled with live or soft-deleted entries while an absent key of that class is looked up / added / removed — grammar.Productions under "
             "Add/Remove/RemoveAll churn of fresh heads with Get lookups; FIRST/FOLLOW tables via ComputeFIRST/ComputeFOLLOW on chain grammars with 20-300 "
             "symbols; lr.ParsingTable under AddACTION/SetGOTO/ACTION/GOTO churn over up to 200 states x 120 symbols. Non-trivial: at least one structural event on the model side (growth, shrink, "
             "in-place rehash, revival, successful Delete); distinct = distinct (configuration, op list).",
